@@ -195,7 +195,8 @@ PROPS = {
         "package": "check-t",
         "bin": "check-t",
         "design_ref": "§5, §7 C17",
-        "technique": "deterministic simulation: the real AsyncifyPool (hook H1) with the real flume rendezvous channel (vendored, sim-aware locks/park/clock) on shuttle coroutines whose context switches and idle time-outs (simulated clock thread) are drawn from the run's choice sequence; 1-3 dispatching threads sharing one pool; per-job run counters, concurrency gauge against the limit, reject-and-retry and post-idle-job oracles; choice-sequence minimisation and replay",
+        "more_parts": [{"engine": "K", "package": "check-k", "bin": "check-k", "share": 1}],
+        "technique": "deterministic simulation: the real AsyncifyPool (hook H1) with the real flume rendezvous channel (vendored, sim-aware locks/park/clock) on shuttle coroutines whose context switches and idle time-outs (simulated clock thread) are drawn from the run's choice sequence; 1-3 dispatching threads sharing one pool; per-job run counters, concurrency gauge against the limit, reject-and-retry and post-idle-job oracles; second part (Engine K): jobs submitted through the real runtime and driver (io_uring or polling) on the simulated kernel, with lanes that keep the event loop busy (a descriptor event in every turn for a millisecond and more, other completions): every job's own result reaches its submitter within 300 µs of simulated time after the job ran; choice-sequence minimisation and replay",
         "tiers": {
             "quick": {"runs": 60_000, "time_limit_s": 60},
             "thorough": {"runs": 30_000_000, "time_limit_s": 1500},
